@@ -36,7 +36,22 @@ for m in Spec Lemmas Sanity Laws; do
   if echo "$out" | grep -q "sorry"; then echo "FAIL: RelAlg/$m.lean uses sorry" >&2; exit 1; fi
 done
 
-# 3. audit the axioms of every law theorem (`theorem <name>` at the start of a line of Laws.lean)
+# 3. what is proved must be what the VCs assume: RelAlg/Generated.lean is printed from the law table spec/laws.py (the same
+#    entries give the SMT axioms) and states every law as `example ... : <generated statement> := Laws.<name> ...`.  A law whose
+#    example does not compile is NOT reported as proved.  The committed file must be what the printer prints now.
+if command -v python3-vt >/dev/null 2>&1; then
+  (cd "$ROOT/.." && python3-vt -m spec.leanprint) > "$BUILD/Generated.lean.new" 2>/dev/null
+  if [ -s "$BUILD/Generated.lean.new" ] && ! cmp -s "$BUILD/Generated.lean.new" RelAlg/Generated.lean; then
+    echo "FAIL: RelAlg/Generated.lean is stale (spec/leanprint.py prints something else); regenerate it" >&2; exit 1
+  fi
+fi
+genout=$(lean -R "$ROOT" -o "$BUILD/RelAlg/Generated.olean" RelAlg/Generated.lean 2>&1)
+# line numbers of errors -> names of the laws whose example contains that line
+badlaws=$(echo "$genout" | sed -n 's/^RelAlg\/Generated.lean:\([0-9]*\):[0-9]*: error.*/\1/p' | while read ln; do
+  awk -v L="$ln" '/^-- law /{name=$3} NR==L{print name}' RelAlg/Generated.lean; done | sort -u)
+if [ -n "$badlaws" ]; then echo "generated statement not proved by the hand-written theorem for: $badlaws" >&2; fi
+
+# 4. audit the axioms of every law theorem (`theorem <name>` at the start of a line of Laws.lean)
 names=$(sed -n 's/^theorem \([A-Za-z0-9_]*\).*/\1/p' RelAlg/Laws.lean)
 {
   echo "import RelAlg.Laws"
@@ -50,6 +65,9 @@ for n in $names; do
   bad=$(echo "$line" | sed -n 's/.*depends on axioms: \[\(.*\)\].*/\1/p' | tr ',' '\n' | tr -d ' ' \
         | grep -vE '^(propext|Classical\.choice|Quot\.sound)?$')
   if [ -n "$bad" ]; then echo "FAIL: $n depends on $bad" >&2; rc=1; continue; fi
-  echo "PROVED $(echo "$n" | tr '_' '-')"
+  law=$(echo "$n" | tr '_' '-')
+  if echo "$badlaws" | grep -qx -- "$law"; then echo "FAIL: $law: the generated statement is not what the theorem proves" >&2; rc=1; continue; fi
+  if ! grep -q -- "^-- law $law\( \|\$\)" RelAlg/Generated.lean; then echo "FAIL: $law has no generated statement (not in the law table)" >&2; rc=1; continue; fi
+  echo "PROVED $law"
 done
 exit $rc
